@@ -119,6 +119,7 @@ def strategy_(draw, tier):
         pts += [b * bs, (b + 1) * bs]
     spec["requests"] = draw(strat.requests(spec["size"], bs, count=6, points=pts, whole_limit=4 << 20))
     spec["via_minimal"] = draw(strat.minimal_handle())
+    spec["fault"] = draw(strat.fault())
     spec["creator"] = draw(st.sampled_from([None, None, None, None, "full", "cut-surrogate", "lone-surrogate", "bytes"]))
     ss = spec["sector_size"]
     spec["sector_requests"] = [[o // ss, max(1, min(n, 1 << 20) // ss)] for o, n in spec["requests"][:2]]
@@ -165,7 +166,7 @@ def check(spec) -> Outcome:
         return out
     if v.size != spec["size"]:
         out.fail(f"mismatch|{tag}-size", f"size {v.size} != {spec['size']}")
-    check_reads(out, v, lay, spec["requests"], tag)
+    check_reads(out, v, lay, spec["requests"], tag, fault=spec.get("fault"), fault_fh=fh)
     from hv.core import also_minimal
 
     also_minimal(out, spec, fh, VHDX, lay, spec["requests"], tag, limit=24 << 20)
